@@ -739,3 +739,62 @@ Section PackagedAny.
        serialize T ser true pid w a (Some v) = Err PE_INVALID_ACCOUNT_DATA_REALLOC).
   Proof. apply (serialize_size T ser pid w d Hdl). Qed.
 End PackagedAny.
+
+(* ================================================================================================ *)
+(* the concrete programs of the harness                                                              *)
+Lemma key_ok_repeat b : is_byte b = true -> key_ok (repeat b 32).
+Proof. intros H. split; [apply repeat_length|now apply bytes_ok_repeat]. Qed.
+
+Lemma instances_ok :
+  oracle_ok (c_ser c_fx) (c_de c_fx) (c_wf c_fx) /\ oracle_ok (c_ser c_bv) (c_de c_bv) (c_wf c_bv) /\
+  oracle_ok (c_ser c_st) (c_de c_st) (c_wf c_st) /\ oracle_ok (c_ser c_ns) (c_de c_ns) (c_wf c_ns) /\
+  prog_ok PID_A 8 DISC_FX /\ prog_ok PID_A 8 DISC_BV /\ prog_ok PID_B 1 DISC_ST /\ prog_ok PID_C 4 DISC_NS.
+Proof.
+  split; [apply codec_oracle, c_fx_ok|]. split; [apply codec_oracle, c_bv_ok|].
+  split; [apply codec_oracle, c_st_ok|]. split; [apply codec_oracle, c_ns_ok|].
+  unfold prog_ok. repeat split; reflexivity.
+Qed.
+
+Lemma persist_unrepaired_refuted :
+  exists (a : bacct) (i : instr (list Z)) (v : list Z),
+    acct_ok a /\ instr_wf (list Z) (c_wf c_bv) i /\
+    let r := exec_instr (list Z) (c_ser c_bv) (c_de c_bv) false PID_A 8 DISC_BV a i in
+    r_end r = IDone (Some v) /\ b_owner (r_acct r) = PID_A /\ zlen (b_data (r_acct r)) > 8 /\
+    b_data (r_acct r) = DISC_BV ++ [1; 4; 0; 0; 0; 1; 2; 3; 4] /\
+    try_from_accounts (list Z) (c_de c_bv) PID_A 8 DISC_BV (begin_instr true (r_acct r)) = Err EC_IO_ERROR /\
+    client_deserialize (list Z) (c_de c_bv) 8 DISC_BV (b_data (r_acct r)) = Err EC_IO_ERROR /\
+    zlen (b_data (r_acct r)) <> 8 + zlen (c_ser c_bv v).
+Proof.
+  exists (mkB PID_A true (DISC_BV ++ [0; 0; 0; 0]) 0 1000000),
+         (mkInstr true false [OSet [1; 2; 3; 4]]), [1; 2; 3; 4].
+  split; [split; [apply key_ok_repeat|]; reflexivity|].
+  split.
+  { constructor; [|constructor]. cbn. split; [reflexivity|]. unfold U32_LIMIT. cbn. lia. }
+  vm_compute. repeat split; try reflexivity; discriminate.
+Qed.
+
+Lemma nonvacuous :
+  let a := mkB PID_A true (DISC_BV ++ [0; 0; 0; 0]) 0 1000000 in
+  let l := [mkInstr true false [OSet [1; 2; 3]; OMut (bv_mut3 4)];
+            mkInstr true false [OMut (bv_mut4 1)];
+            mkInstr false false [ORead; OSerialize]] in
+  acct_ok a /\
+  map (fun r => (r_tfa r, r_end r, b_data (r_acct r)))
+      (exec_seq (list Z) (c_ser c_bv) (c_de c_bv) true PID_A 8 DISC_BV a l) =
+  [ (Ok (Some []), IDone (Some [1; 2; 3; 4]), DISC_BV ++ [4; 0; 0; 0; 1; 2; 3; 4]);
+    (Ok (Some [1; 2; 3; 4]), IDone (Some [1]), DISC_BV ++ [1; 0; 0; 0; 1]);
+    (Ok (Some [1]), IDone (Some [1]), DISC_BV ++ [1; 0; 0; 0; 1]) ].
+Proof.
+  split; [split; [apply key_ok_repeat|]; reflexivity|]. vm_compute. reflexivity.
+Qed.
+
+Lemma empty_encoding_not_written :
+  let ser := fun _ : unit => @nil Z in
+  let de := fun l : list Z => Some (tt, l) in
+  (forall t tl, de (ser t ++ tl) = Some (t, tl)) /\
+  let r := exec_instr unit ser de true PID_B 1 DISC_ST (mkB PID_B true DISC_ST 0 1) (mkInstr true false [OSet tt]) in
+  r_end r = IDone (Some tt) /\
+  try_from_accounts unit de PID_B 1 DISC_ST (begin_instr true (r_acct r)) = Ok None.
+Proof.
+  split; [intros [] tl; reflexivity|]. vm_compute. split; reflexivity.
+Qed.
